@@ -34,8 +34,14 @@ theorem grammar_options :
 theorem grammar_priorities : ∀ p ∈ Gen.Grammar.terminalPriorities, p.2 = 0 := by decide +kernel
 /-- lark resolved no shift/reduce conflict: the grammar is LALR(1) as written -/
 theorem grammar_no_conflicts : Gen.Grammar.shiftReduceConflicts = 0 := by decide
+/-- `CELParser.ambiguous_literals`, extracted as the function word ↦ new token type it computes (a finite
+    table, one entry per word, sorted by word — the shape of the Python code does not matter), is the model's
+    table as a set; the model looks words up with `find?`, so with one entry per word the two are the same function -/
 theorem grammar_ambiguous_literals :
-    Gen.Grammar.ambiguousLiterals = ambiguousLiterals.map (fun p => (p.1, p.2.src))
+    (∀ p ∈ Gen.Grammar.ambiguousLiterals, p ∈ ambiguousLiterals.map (fun p => (p.1, p.2.src)))
+    ∧ (∀ p ∈ ambiguousLiterals.map (fun p => (p.1, p.2.src)), p ∈ Gen.Grammar.ambiguousLiterals)
+    ∧ (Gen.Grammar.ambiguousLiterals.map Prod.fst).Nodup
+    ∧ (ambiguousLiterals.map Prod.fst).Nodup
     ∧ Gen.Grammar.ambiguousLiteralsOnIdent = true := by decide
 theorem grammar_word_terminals :
     Gen.Grammar.wordStrTerminals = wordStrTerminals.map (fun p => (p.1, p.2.src)) := by decide
